@@ -8,6 +8,7 @@ import SparseV.Model.Reduce
 import SparseV.Model.Getitem
 import SparseV.Model.Convert
 import SparseV.Lemmas.Validate
+import SparseV.Lemmas.Gen.Slicing
 namespace SparseV
 
 theorem bind_eq_error {α β : Type} (m : Except Err α) (k : α → Except Err β) (e : Err) :
@@ -217,17 +218,10 @@ theorem replaceEllipsis_spec (n : Nat) (idx : List IxE) :
     refine ⟨(fun e h => by cases h; rfl), (fun idx' h => by cases h)⟩
 
 theorem normalizeInt_error (i dim : Int) (e : Err) (h : normalizeInt i dim = .error e) : e = Err.index := by
-  unfold normalizeInt at h
+  rw [normalizeInt_eq] at h
   split at h
-  · rename_i e' he
-    cases h
-    simp only [Gen.checkIndexInt] at he
-    split at he
-    · cases he; rfl
-    · split at he
-      · cases he; rfl
-      · cases he
   · cases h
+  · cases h; rfl
 
 theorem normalizeEntry_error (en : IxE) (dim : Int) (e : Err) (hne : en.isEllipsis = false)
     (h : normalizeEntry en dim = .error e) : e = Err.index := by
